@@ -32,9 +32,10 @@ def check(run):
         S = tc.Setup()
         ok, detail = tc.closure_calls(S, 'resolve_types', r'resolve_type$')
         if ok:
-            run.holds('the closure resolve_types hands to the walker calls resolve_type on exactly the node it is given', 'T', bound='MIR of resolve_types::{closure#0}')
+            run.holds('the closure resolve_types hands to the walker calls resolve_type on exactly the node it is given, on every path (no cache or early return skips it)', 'T', bound='MIR of resolve_types::{closure#0}', detail=detail)
         else:
-            run.violated('resolve_types closure calls resolve_type on its node', 'T', 'resolve-closure', {'detail': detail}, True)
+            nb = native.sweep_c05()[1]
+            run.violated('resolve_types closure calls resolve_type on its node, on every path', 'T', 'resolve-closure', {'detail': detail, 'native': nb[:2]}, bool(nb), detail=detail)
     except mir.Unsupported as e:
         run.inconclusive('resolve_types closure', 'T', str(e))
 
